@@ -61,6 +61,10 @@ imb_quic_chacha20_poly1305(IMB_MGR *state, const void *key, const IMB_CIPHER_DIR
                 imb_set_errno(state, IMB_ERR_NULL_SRC);
                 return;
         }
+        if (len_array == NULL) {
+                imb_set_errno(state, IMB_ERR_CIPH_LEN);
+                return;
+        }
         if (iv_ptr_array == NULL) {
                 imb_set_errno(state, IMB_ERR_NULL_IV);
                 return;
